@@ -128,7 +128,13 @@ fn generate_seq(r: &mut Rng, sess: &mut Session, out: &mut Out) {
             if r.chance(1, 4) { continue; }
             for _ in 0..r.range(1, 3) {
                 let len = sess.crdt.replicas.get(who).unwrap().length(parse_exid(&seq)) as u64;
-                let line = if is_text {
+                let line = if is_text && enc == "cp" && len > 0 && r.chance(1, 4) {
+                    // values other than characters inside a text: counters, conflicts, increments
+                    // (code points only: there every element is one unit wide, so that the C03
+                    // read-back oracle of `crdt.put`, which re-reads the same index, applies)
+                    if r.chance(1, 3) { format!("crdt.inc {} {} i{} {}", who, seq, r.below(len), r.range(1, 3)) }
+                    else { format!("crdt.put {} {} i{} {}", who, seq, r.below(len.min(2)), vals[r.below(8) as usize]) }
+                } else if is_text {
                     let pos = r.below(len + 1);
                     let del = if len > pos && r.chance(1, 3) { r.range(1, (len - pos).min(2)) } else { 0 };
                     format!("crdt.splice {} {} {} {} {}", who, seq, pos, del, hex::encode(txts[r.below(5) as usize]))
